@@ -101,8 +101,8 @@ def run(rep, tier, driver):
         if lines != want:
             rep.violation("argv", c, {"lines": lines}, {"lines": want}, key="lines:" + json.dumps(c, sort_keys=True)[:200])
         if driver is not None:
-            req = {"op": "cli", "args": [({"file": (a["file"].replace("\r\n", "\n").split("\n")[:-1] if a["file"].replace("\r\n", "\n").endswith("\n")
-                                                 else a["file"].replace("\r\n", "\n").split("\n")) if a["file"] else []} if isinstance(a, dict) else a) for a in c["args"]],
+            # the Model splits the file content into lines (universal newlines) and strips them itself
+            req = {"op": "cli", "args": [({"content": a["file"]} if isinstance(a, dict) else a) for a in c["args"]],
                    "conv": {g: spec[g] for g in gs}}
             ans = driver.ask(req)
             if ans.get("lines") != (lines if want or got is not None else None):
